@@ -330,3 +330,211 @@ func VP_C10_names() {
 	vpAssert("name-survives-write-and-read", err2 == nil && isName2 && name2 == name)
 	vpCover("done")
 }
+
+// vpNumberRef classifies a token by the number syntax of the PLRM (section 3.2.2), written as a
+// hand parser: kind 1 = integer (value in i, or in r when it exceeds the integer range), kind 2 =
+// real (value in r), kind 0 = not a number (an executable name).
+func vpNumberRef(tok []byte) (kind int, i int64, r float64) {
+	n := len(tok)
+	pos := 0
+	isDigit := func(c byte) bool { return c >= '0' && c <= '9' }
+	// radix form base#digits (no sign)
+	for k := 1; k <= 2 && k < n; k++ {
+		if tok[k] == '#' {
+			base := 0
+			for _, c := range tok[:k] {
+				if !isDigit(c) {
+					return 0, 0, 0
+				}
+				base = base*10 + int(c-'0')
+			}
+			if base < 2 || base > 36 || k+1 >= n {
+				return 0, 0, 0
+			}
+			var v uint64
+			for _, c := range tok[k+1:] {
+				var d int
+				switch {
+				case isDigit(c):
+					d = int(c - '0')
+				case c >= 'a' && c <= 'z':
+					d = int(c-'a') + 10
+				case c >= 'A' && c <= 'Z':
+					d = int(c-'A') + 10
+				default:
+					return 0, 0, 0
+				}
+				if d >= base {
+					return 0, 0, 0
+				}
+				v = v*uint64(base) + uint64(d)
+			}
+			return 1, int64(v), 0
+		}
+		if !isDigit(tok[k-1]) {
+			break
+		}
+	}
+	neg := false
+	if pos < n && (tok[pos] == '+' || tok[pos] == '-') {
+		neg = tok[pos] == '-'
+		pos++
+	}
+	mant, digits, fracDigits := int64(0), 0, 0
+	for pos < n && isDigit(tok[pos]) {
+		mant = mant*10 + int64(tok[pos]-'0')
+		digits++
+		pos++
+	}
+	isReal := false
+	if pos < n && tok[pos] == '.' {
+		isReal = true
+		pos++
+		for pos < n && isDigit(tok[pos]) {
+			mant = mant*10 + int64(tok[pos]-'0')
+			digits++
+			fracDigits++
+			pos++
+		}
+	}
+	if digits == 0 {
+		return 0, 0, 0
+	}
+	exp := 0
+	if pos < n && (tok[pos] == 'e' || tok[pos] == 'E') {
+		isReal = true
+		pos++
+		eneg := false
+		if pos < n && (tok[pos] == '+' || tok[pos] == '-') {
+			eneg = tok[pos] == '-'
+			pos++
+		}
+		ed := 0
+		for pos < n && isDigit(tok[pos]) {
+			exp = exp*10 + int(tok[pos]-'0')
+			ed++
+			pos++
+		}
+		if ed == 0 {
+			return 0, 0, 0
+		}
+		if eneg {
+			exp = -exp
+		}
+	}
+	if pos != n {
+		return 0, 0, 0
+	}
+	if !isReal {
+		if neg {
+			mant = -mant
+		}
+		return 1, mant, 0
+	}
+	// (small mantissas and exponents only: exact powers of ten, one correctly rounded operation)
+	v := float64(mant)
+	e := exp - fracDigits
+	p := 1.0
+	for k := 0; k < e || k < -e; k++ {
+		p *= 10
+	}
+	if e >= 0 {
+		v *= p
+	} else {
+		v /= p
+	}
+	if neg {
+		v = -v
+	}
+	return 2, 0, v
+}
+
+var vpNumberPool = []string{
+	// numbers in unusual spellings
+	"0", "-0", "+17", "007", "1.", ".5", "-.5", "+1.25", "1e3", "1E3", "2.5e-2", "1e+2", "-3E0", "0.0", "-0.0",
+	"8#17", "16#fF", "36#zZ", "2#101", "10#99", "9#80",
+	// not numbers: executable names
+	"nan", "NaN", "NAN", "inf", "Inf", "+inf", "-Inf", "infinity", "Infinity", "+", "-", ".", "-.", "e5", "1e", "1e+", "1.2.3", "--1", "+-1", "1-",
+	"0x10", "0x1p4", "0X1P-2", "0x.8p1", "0x_1p4", "1_0", "1_000", "0b101", "0o17",
+	"1#0", "37#1", "8#9", "16#", "#5", "8#-1", "16#fg", "1e5x", "12a", "$1",
+}
+
+// C04 K7: number syntax.  A token between two others, with every separator choice: signed decimal
+// integers and reals with a decimal point have symbolic digits; radix numbers, exponent forms and
+// the look-alikes that are NOT numbers (and so are executable names) come from a pool of
+// spellings.  The scanner's classification and value are compared with the PLRM grammar.
+func VP_C04_numbers() {
+	vpUnwind(600)
+	var tok []byte
+	digit := func(tag string) byte {
+		d := vpByte(tag)
+		vpAssume(d >= '0' && d <= '9')
+		return d
+	}
+	sign := func() {
+		switch vpChoose("sign", 3) {
+		case 1:
+			tok = append(tok, '+')
+		case 2:
+			tok = append(tok, '-')
+		}
+	}
+	switch vpChoose("form", 3) {
+	case 0:
+		sign()
+		nd := 1 + vpChoose("digits", vpParam("DIGITS", 3))
+		for k := 0; k < nd; k++ {
+			tok = append(tok, digit("d"+string(rune('0'+k))))
+		}
+	case 1:
+		sign()
+		ni := vpChoose("intdigits", 3)
+		for k := 0; k < ni; k++ {
+			tok = append(tok, digit("i"+string(rune('0'+k))))
+		}
+		tok = append(tok, '.')
+		nf := vpChoose("fracdigits", 3)
+		if ni == 0 && nf == 0 {
+			nf = 1
+		}
+		for k := 0; k < nf; k++ {
+			tok = append(tok, digit("f"+string(rune('0'+k))))
+		}
+	default:
+		tok = []byte(vpNumberPool[vpChoose("spelling", len(vpNumberPool))])
+	}
+	seps := []string{" ", "\t", "\r\n", "\f", "\x00", "%c\n", "\n"}
+	text := []byte("7")
+	text = append(text, seps[vpChoose("sep1", len(seps))]...)
+	text = append(text, tok...)
+	after := vpChoose("sep2", len(seps)+1)
+	if after < len(seps) {
+		text = append(text, seps[after]...)
+	}
+	text = append(text, "/end "...) // a delimiter may follow the token directly
+	// (the reader may hand over its last bytes together with io.EOF)
+	sc := newScanner(&vpReader{data: text, mode: 0, faultAt: -1, eofWithData: vpChoose("eof-with-data", 2) == 1, name: "r"})
+	o1, e1 := sc.ScanToken()
+	o2, e2 := sc.ScanToken()
+	o3, e3 := sc.ScanToken()
+	vpAssert("neighbours-unaffected", e1 == nil && e3 == nil && o1 == Integer(7) && o3 == Name("end"))
+	vpAssert("token-read", e2 == nil)
+	if e2 != nil {
+		return
+	}
+	kind, wi, wr := vpNumberRef(tok)
+	switch kind {
+	case 1:
+		got, ok := o2.(Integer)
+		vpAssert("integer-syntax-gives-integer", ok && int64(got) == wi)
+		vpCover("integer")
+	case 2:
+		got, ok := o2.(Real)
+		vpAssert("real-syntax-gives-real", ok && float64(got) == wr) // (the sign of a zero is not compared)
+		vpCover("real")
+	default:
+		got, ok := o2.(Operator)
+		vpAssert("other-tokens-are-executable-names", ok && string(got) == string(tok))
+		vpCover("name")
+	}
+}
